@@ -4,10 +4,10 @@
    documents/knowledge/elements.yaml (element `n`: "value of the current loop or function").
    The context value, the input scope and a callee's own stack are BRACKETS: the evaluator
    runs the body inside and afterwards puts back what was there, whatever the body did.
-   The function stack and the registry of stacks are implementation devices that nothing in
-   this file reads; only their DEPTHS are carried along (two ghost counters of the shared
-   state record, raised inside the bracket of a call and put back by it) so that the two
-   evaluators can be compared state by state.
+   The chain of running functions (what `x` under a modifier refers to) and the function
+   itself (`x` in a lambda) are brackets of the same kind; the registry of stacks is an
+   implementation device that nothing here reads: only its depth is carried along (a ghost
+   counter of the shared state record) so that the two evaluators can be compared state by state.
 
    Readings adopted where the documents are silent or contradict each other (the newer
    document wins; each can be challenged):
@@ -21,7 +21,18 @@
      context value (the single argument itself for one argument) and its input scope;
    * a list literal evaluates every item on a copy of the stack and takes the item stack's top;
      an item that leaves its stack empty contributes nothing;
-   * in a while loop the context value is the condition value just tested.
+   * in a while loop the context value is the condition value just tested;
+   * early exits (elements.yaml: X "Break out of the current loop or function", x "Call current
+     function (Recursion)"): X leaves the innermost loop, or the running lambda with the top of
+     its stack as the result; x in a for loop goes on with the next item, x in a lambda calls
+     the lambda on its own stack (arguments popped, result pushed), x standing as the operand of
+     a modifier calls the function the modifier is used in, x at the top level of the program
+     prints the stack (there is no function to call; the implementation's choice, adopted);
+     X where there is nothing to leave does nothing.  Early exits are CONTROL EFFECTS here: a
+     statement list ends with a signal, every bracket restores on any signal, the loop / call
+     that the signal is for absorbs it.  Where the implementation does something else (X in a
+     map / filter / sort lambda or a named function, x in a while body, ...) the construct is
+     outside the core: ENotCore.
    Element and modifier-body semantics are shared with the machine (Model/Values.v).
    No proofs in this file. *)
 From Coq Require Import List NArith ZArith Bool.
@@ -45,31 +56,37 @@ Definition with_stack {A} (st : list value) : (state -> xres (A * state)) -> sta
 Definition with_locals {A} (l : list (str * value)) : (state -> xres (A * state)) -> state -> xres (A * state) :=
   bracket (fun s => set_locs s l) (fun s0 s' => set_locs s' (locs s0)).
 
-(* ghost counters: a function frame is live / a callee's stack is registered *)
-Definition with_function {A} : (state -> xres (A * state)) -> state -> xres (A * state) :=
-  bracket (fun s => set_fdepth s (S (fdepth s))) (fun s0 s' => set_fdepth s' (fdepth s0)).
+(* the running function: what `x` calls; and the chain of running lambdas *)
+Definition with_this {A} (f : option closure) : (state -> xres (A * state)) -> state -> xres (A * state) :=
+  bracket (fun s => set_this s f) (fun s0 s' => set_this s' (this s0)).
+Definition with_function {A} (f : option closure) : (state -> xres (A * state)) -> state -> xres (A * state) :=
+  bracket (fun s => set_fstack s (f :: fstack s)) (fun s0 s' => set_fstack s' (fstack s0)).
+(* ghost counter: a callee's stack is registered *)
 Definition with_registered {A} : (state -> xres (A * state)) -> state -> xres (A * state) :=
   bracket (fun s => set_sdepth s (S (sdepth s))) (fun s0 s' => set_sdepth s' (sdepth s0)).
 
-(* a body that returns nothing *)
-Definition with_context_u (v : value) (k : state -> xres state) (s : state) : xres state :=
-  xdo s' <- k (set_ctxv s (v :: ctxv s)); XOk (set_ctxv s' (ctxv s)).
-
 Section Step.
   Variable cf : cfg.
-  Variable rec : list struct -> state -> xres state.                       (* the evaluator one fuel level down *)
-  Variable wl : value -> list struct -> list struct -> state -> xres state.   (* the rest of a while loop *)
+  Variable rec : list struct -> state -> fres.                            (* the evaluator one fuel level down *)
+  Variable wl : value -> list struct -> list struct -> state -> fres.     (* the rest of a while loop *)
 
   (* calling a lambda on the arguments it popped (in popping order): own stack, context value,
-     input scope; the result is the top of its own stack *)
-  Definition r_lambda (c : closure) (popped : list value) : state -> xres (value * state) :=
+     input scope; the result is the top of its own stack, or what an X in its body returned *)
+  Definition r_lambda (self : option closure) (c : closure) (popped : list value) : state -> xres (value * state) :=
     with_stack (rev popped)
       (with_locals []
-         (with_function
-            (with_context (context_of popped)
-               (with_scope (rev popped)
-                  (with_registered
-                     (fun s => xdo s1 <- rec (c_body c) s; let (s2, r) := pop1 s1 in XOk (r, s2))))))).
+         (with_this self
+            (with_function self
+               (with_context (context_of popped)
+                  (with_scope (rev popped)
+                     (with_registered
+                        (fun s =>
+                           xdo (g, s1) <- rec (c_body c) s;
+                           match g with
+                           | SNorm => let (s2, r) := pop1 s1 in XOk (r, s2)
+                           | SRet v => XOk (v, s1)
+                           | _ => XErr ENotCore
+                           end))))))).
 
   (* "numbers pop that many arguments and push them to the function's stack, names pop a single
      argument and place it into a local variable with the same name" *)
@@ -97,29 +114,35 @@ Section Step.
     xdo (s1, ps, loc) <- r_params (c_params c) s;
     with_stack (rev ps)
       (with_locals (bind_all loc)
-         (with_context (VList ps)
-            (with_scope (rev ps)
-               (with_registered (fun s => xdo s' <- rec (c_body c) s; XOk (stk s', s')))))) s1.
+         (with_this (Some c)
+            (with_context (VList ps)
+               (with_scope (rev ps)
+                  (with_registered
+                     (fun s =>
+                        xdo (g, s') <- rec (c_body c) s;
+                        match g with SNorm => XOk (stk s', s') | _ => XErr ENotCore end)))))) s1.
 
   (* applying a function value to explicit arguments *)
   Definition r_app : app_t := fun c args s =>
-    if core_ok_list true (c_body c) then
+    if body_ok c then
       if c_named c then
         with_stack args
           (fun s => xdo (fs, s1) <- r_named c s;
                     match fs with r :: _ => XOk (r, s1) | [] => XErr EIndex end) s
-      else r_lambda c args s
+      else r_lambda (Some c) c args s
     else XErr ENotCore.
 
-  (* calling a function value on the current stack: the arguments are popped, the result(s) pushed *)
-  Definition r_callstk : callstk_t := fun c s =>
-    if core_ok_list true (c_body c) then
+  (* calling a function value on the current stack: the arguments are popped, the result(s) pushed;
+     self = what the callee knows as itself *)
+  Definition r_call_on_stack (self : option closure) (c : closure) (s : state) : xres state :=
+    if body_ok c then
       if c_named c then
         xdo (fs, s1) <- r_named c s; XOk (set_stk s1 (fs ++ stk s1))
       else
         let (s1, popped) := popn (select_arity c None) s in
-        xdo (r, s2) <- r_lambda c popped s1; XOk (push r s2)
+        xdo (r, s2) <- r_lambda self c popped s1; XOk (push r s2)
     else XErr ENotCore.
+  Definition r_callstk : callstk_t := fun c s => r_call_on_stack (Some c) c s.
 
   Definition r_token (t : token) (s : state) : xres state :=
     match tk t with
@@ -135,48 +158,89 @@ Section Step.
     | _ => XErr ENotCore
     end.
 
-  (* [A|c1|B1|...|E]: after the first test failed *)
-  Fixpoint r_elif (bs : list (list struct)) (s : state) : xres state :=
-    match bs with
-    | [] => XOk s
-    | [e] => rec e s
-    | c :: ((b :: rest) as tl) =>
-        xdo s1 <- rec c s;
-        let (s2, v) := pop1 s1 in
-        xdo t <- of_opt (truthy v);
-        if t then rec b s2 else r_elif rest s2
+  (* X: "break out of the current loop or function" *)
+  Definition r_break (p : option pkind) (s : state) : fres :=
+    match p with
+    | Some PFor | Some PWhile => XOk (SBrk, s)
+    | Some PLambda => let (s1, v) := pop1 s in XOk (SRet v, s1)
+    | None | Some PIf => XOk (SNorm, s)          (* at the top level there is nothing to leave *)
+    | _ => XErr ENotCore
     end.
 
-  Definition r_if (bs : list (list struct)) (s : state) : xres state :=
+  (* x: "call current function (recursion)" *)
+  Definition r_recurse (p : option pkind) (s : state) : fres :=
+    match p with
+    | Some PFor => XOk (SCont, s)
+    | Some PLambda =>
+        match this s with
+        | Some c => norm (r_call_on_stack (Some c) c s)
+        | None => XErr EStuck
+        end
+    | Some PMonadic | Some PDyadic | Some PTriadic =>
+        (* the operand of a modifier is a function of its own: the current function is the next one out *)
+        match nth_error (fstack s) 1 with
+        | Some (Some c) => norm (r_call_on_stack (Some c) c s)
+        | Some None => XErr EStuck
+        | None => XErr EIndex
+        end
+    | None => norm (vy_print (VList (rev (stk s))) s)
+    | _ => XErr ENotCore
+    end.
+
+  (* [A|c1|B1|...|E]: after the first test failed *)
+  Fixpoint r_elif (bs : list (list struct)) (s : state) : fres :=
     match bs with
-    | [] => XOk s
+    | [] => XOk (SNorm, s)
+    | [e] => rec e s
+    | c :: ((b :: rest) as tl) =>
+        xdo (g, s1) <- rec c s;
+        match g with
+        | SNorm =>
+            let (s2, v) := pop1 s1 in
+            xdo t <- of_opt (truthy v);
+            if t then rec b s2 else r_elif rest s2
+        | _ => XOk (g, s1)
+        end
+    end.
+
+  Definition r_if (bs : list (list struct)) (s : state) : fres :=
+    match bs with
+    | [] => XOk (SNorm, s)
     | a :: rest =>
         let (s1, v) := pop1 s in
         xdo t <- of_opt (truthy v);
         if t then rec a s1 else r_elif rest s1
     end.
 
-  Fixpoint r_for (var : option str) (body : list struct) (items : list value) (s : state) : xres state :=
+  Fixpoint r_for (var : option str) (body : list struct) (items : list value) (s : state) : fres :=
     match items with
-    | [] => XOk s
+    | [] => XOk (SNorm, s)
     | x :: r =>
         let s1 := match var with Some v => set_vars s (assign v x (vars s)) | None => s end in
-        xdo s2 <- with_context_u x (rec body) s1;
-        r_for var body r s2
+        xdo (g, s2) <- with_context x (rec body) s1;
+        match g with
+        | SNorm | SCont => r_for var body r s2
+        | SBrk => XOk (SNorm, s2)
+        | SRet v => XOk (SRet v, s2)
+        end
     end.
 
   Fixpoint r_items (its : list (list struct)) (s : state) : xres (list value * state) :=
     match its with
     | [] => XOk ([], s)
     | x :: r =>
-        xdo (top, s1) <- with_stack (stk s) (with_locals [] (fun s => xdo s' <- rec x s; XOk (hd_error (stk s'), s'))) s;
+        xdo (top, s1) <- with_stack (stk s) (with_locals []
+                           (fun s => xdo (g, s') <- rec x s;
+                                     match g with SNorm => XOk (hd_error (stk s'), s') | _ => XErr ENotCore end)) s;
         xdo (vs, s2) <- r_items r s1;
         XOk (match top with Some v => v :: vs | None => vs end, s2)
     end.
 
-  Definition r_step (x : struct) (s : state) : xres state :=
+  Definition r_step (x : struct) (s : state) : fres :=
     match x with
-    | SGeneric t => r_token t s
+    | SGeneric t => norm (r_token t s)
+    | SBreak p => r_break p s
+    | SRecurse p => r_recurse p s
     | SIf bs => r_if bs s
     | SFor names body =>
         match names with
@@ -190,13 +254,15 @@ Section Step.
             else XErr ENotCore
         end
     | SWhile c b =>
-        xdo s1 <- rec c s;
-        let (s2, v) := pop1 s1 in
-        wl v c b s2
+        xdo (g, s1) <- rec c s;
+        match g with
+        | SNorm => let (s2, v) := pop1 s1 in wl v c b s2
+        | _ => XErr ENotCore
+        end
     | SFnCall n =>
         if name_ok (keep re_keep_fncall n) then
           match lookup_var (keep re_keep_fncall n) s with
-          | Some (VFun c) => r_callstk c s
+          | Some (VFun c) => norm (r_call_on_stack None c s)
           | Some _ => XErr EStuck
           | None => XErr EName
           end
@@ -204,44 +270,56 @@ Section Step.
     | SFnDef n ps body =>
         if name_ok (keep re_keep_fndef n) then
           match params_of ps with
-          | Some params => XOk (set_vars s (assign (keep re_keep_fndef n) (VFun (mk_named params body)) (vars s)))
+          | Some params => XOk (SNorm, set_vars s (assign (keep re_keep_fndef n) (VFun (mk_named params body)) (vars s)))
           | None => XErr ENotCore
           end
         else XErr ENotCore
-    | SLambda a body => XOk (push (VFun (mk_lambda a body)) s)
+    | SLambda a body => XOk (SNorm, push (VFun (mk_lambda a body)) s)
     | SLamOp o body =>
         let s1 := push (VFun (mk_lambda (Some 1) body)) s in
         match o with
-        | OpMap => elem_sem cf r_app r_callstk 77%N s1
-        | OpFilter => elem_sem cf r_app r_callstk 70%N s1
-        | OpSort => elem_sem cf r_app r_callstk 7777%N s1
+        | OpMap => norm (elem_sem cf r_app r_callstk 77%N s1)
+        | OpFilter => norm (elem_sem cf r_app r_callstk 70%N s1)
+        | OpSort => norm (elem_sem cf r_app r_callstk 7777%N s1)
         end
-    | SList its => xdo (vs, s1) <- r_items its s; XOk (push (VList vs) s1)
+    | SList its => xdo (vs, s1) <- r_items its s; XOk (SNorm, push (VList vs) s1)
     | SMod1 m a =>
-        if mem m mod1_keys then mod1_sem cf r_app r_callstk m (operand_closure a) s else XErr ENotCore
+        if mem m mod1_keys then norm (mod1_sem cf r_app r_callstk m (operand_closure a) s) else XErr ENotCore
     | SMod2 m a b =>
-        if mem m mod2_keys then mod2_sem r_app m (operand_closure a) (operand_closure b) s else XErr ENotCore
+        if mem m mod2_keys then norm (mod2_sem r_app m (operand_closure a) (operand_closure b) s) else XErr ENotCore
     | _ => XErr ENotCore
     end.
 End Step.
 
-Fixpoint eval (cf : cfg) (fuel : nat) (p : list struct) (s : state) : xres state :=
+Fixpoint eval (cf : cfg) (fuel : nat) (p : list struct) (s : state) : fres :=
   match fuel with
   | O => XFuel
   | S f => seq_run (r_step cf (eval cf f) (rloop cf f)) p s
   end
-with rloop (cf : cfg) (fuel : nat) (v : value) (c b : list struct) (s : state) : xres state :=
+with rloop (cf : cfg) (fuel : nat) (v : value) (c b : list struct) (s : state) : fres :=
   match fuel with
   | O => XFuel
   | S f =>
       xdo t <- of_opt (truthy v);
       if t then
-        xdo s1 <- with_context_u v (eval cf f b) s;
-        xdo s2 <- eval cf f c s1;
-        let (s3, v') := pop1 s2 in
-        rloop cf f v' c b s3
-      else XOk s
+        xdo (g, s1) <- with_context v (eval cf f b) s;
+        match g with
+        | SNorm =>
+            xdo (g2, s2) <- eval cf f c s1;
+            match g2 with
+            | SNorm => let (s3, v') := pop1 s2 in rloop cf f v' c b s3
+            | _ => XErr ENotCore
+            end
+        | SBrk => XOk (SNorm, s1)
+        | SCont => XErr ENotCore
+        | SRet r => XOk (SRet r, s1)
+        end
+      else XOk (SNorm, s)
   end.
 
 Definition run_ref (fl : flag) (fuel : nat) (inputs : list value) (p : list struct) : xres state :=
-  xdo s <- eval (cfg_of fl) fuel p (init_state fl inputs); finish (r_app (eval (cfg_of fl) fuel)) fl s.
+  xdo (g, s) <- eval (cfg_of fl) fuel p (init_state fl inputs);
+  match g with
+  | SNorm => finish (r_app (eval (cfg_of fl) fuel)) fl s
+  | _ => XErr ENotCore
+  end.
